@@ -197,7 +197,13 @@ func (e *Eng) evalSpec(st *State, x *SExpr, env map[string]*Val, old map[string]
 						}
 					}
 					if best != nil {
+						// parameters and results count: they are per call too
 						lo, hi := e.fnBody().Pos(), e.fnBody().End()
+						if e.lit != nil {
+							lo = e.lit.Pos()
+						} else if e.fn != nil {
+							lo = e.fn.Pos()
+						}
 						here = best.Pos() >= lo && best.Pos() < hi
 					}
 				}
